@@ -1029,10 +1029,13 @@ def replay(ck: core.Check, doc) -> bool:
         return r is not None
     install_spy(env)
     try:
+        # twice in one process: argument Vars must be fresh for every call, also for equal operand types
         obs = run_real(env, case["case"], case.get("steps", []))
+        obs2 = run_real(env, case["case"], [])
     finally:
         remove_spy(env)
     bad = judge(case["case"], obs)
+    bad += [b for b in judge(case["case"], obs2) if b not in bad]
     hit = False
     for k, what in bad:
         mine = (k == key) if key else (k not in known)
